@@ -88,10 +88,14 @@ func (r *bridgeRig) startLifecycle() string {
 	})
 }
 
-// waitCopiers waits until both copiers are blocked in their Read.
+// waitCopiers waits until both copiers are blocked in their Read (false: Start returned without
+// spawning them, e.g. its select picked the cancelled context, or they did not get there in time).
 func (r *bridgeRig) waitCopiers() bool {
 	deadline := time.Now().Add(2 * time.Second)
 	for r.src.blockedReaders() == 0 || r.dst.blockedReaders() == 0 {
+		if st, _ := r.s.State("st"); st == sched.Parked || st == sched.Done {
+			return false
+		}
 		if time.Now().After(deadline) {
 			return false
 		}
@@ -106,9 +110,18 @@ func (r *bridgeRig) deliver(p string) bool {
 	if p == "cpB" {
 		in, out, chunk = r.dst, r.src, chunkB
 	}
+	if in.isClosed() || out.isClosed() {
+		return false
+	}
+	for t0 := time.Now(); in.blockedReaders() == 0; {
+		if time.Since(t0) > 30*time.Millisecond {
+			return false // nobody is copying from this side (any more)
+		}
+		time.Sleep(20 * time.Microsecond)
+	}
 	want := out.written.Load() + int64(len(chunk))
 	in.inject(chunk)
-	deadline := time.Now().Add(2 * time.Second)
+	deadline := time.Now().Add(time.Second)
 	for out.written.Load() < want {
 		if time.Now().After(deadline) {
 			return false
